@@ -2,6 +2,9 @@
 EXTENDS Cli
 S(i, c, f, o) == [input |-> i, channel |-> c, format |-> f, own |-> o, out |-> "stdout"]
 SO(i, c, f, o, w) == [input |-> i, channel |-> c, format |-> f, own |-> o, out |-> w]
+\* the environment's idea of text encoding (PYTHONIOENCODING=latin-1; LC_ALL=C without UTF-8 mode): project files are UTF-8
+\* whatever the locale says -- same report, same report_id (the hash of the input BYTES), from a file and from stdin
+EnvSits == {([env |-> e] @@ S("nonascii", c, f, "none")) : c \in {"path", "stdin"}, f \in {"json", "csv"}, e \in {"latin1io", "clocale"}}
 \* every situation of one invocation (C19)
 \* "escape": the file defines a report whose file name leads out of the output directory ("../x"); "badname": one whose
 \* file name the library refuses -- whatever other reports the file defines, the command emits its own report and leaves no trace
@@ -23,6 +26,7 @@ AllSits == {s \in Raw : /\ ~(s.input \in {"missing", "directory"} /\ s.channel \
            \* "nlfname": a newline in the file NAME (the name must not end up as project text); "unreadable": read() fails (EACCES / EIO)
            \cup {S(i, "path", f, "none") : i \in {"badfname", "nlfname", "unreadable"}, f \in {"json", "csv"}}
            \cup {[S(i, c, "json", "none") EXCEPT !.out = "stderrfull"] : i \in {"ok", "syntax", "empty", "missing"}, c \in {"path", "stdin"}}
+           \cup {S("nonascii", c, f, "none") : c \in {"path", "stdin"}, f \in {"json", "csv"}} \cup EnvSits
 \* outside faults (C20): every situation here is replayed alone, and some of them among other processes
 FaultSits == {([fault |-> f] @@ S(i, c, "json", "none")) : i \in {"ok", "syntax"}, c \in {"path", "stdin"}, f \in {"sigint", "fsize"}}
 \* three concurrent processes (C20): a representative mix incl. failing ones
